@@ -9,7 +9,7 @@ and the complete pull/call logs at the end.
 
 import itertools
 
-from ..actors import World, ident, make_async_source, make_ref_source, make_async_fn, make_ref_fn, is_source_item
+from ..actors import World, AwaitableItem, ident, make_async_source, make_ref_source, make_async_fn, make_ref_fn, is_source_item
 from ..runner import Outcome
 from ..tools import draw_cfg, Gen, lib
 from ..tooldiff import normalise, first_diff
@@ -46,6 +46,11 @@ def gen(ch, cfg, prefix):
     elif sc.key is None and items and ch.chance(1, 4):
         for _ in range(ch.between(1, 3)):
             items[ch.draw(len(items))] = None  # None items are their own (equal) keys
+    elif sc.key is None and items and ch.chance(1, 4):
+        # items that are awaitable objects (futures passed along as data): each is its own key, nobody awaits them
+        for n in range(ch.between(1, 3)):
+            pos = 0 if n == 0 and ch.chance(1, 2) else ch.draw(len(items))
+            items[pos] = AwaitableItem(("aw", pos))
     sc.src = g.src(items)
     ops = []
     for _ in range(ch.between(1, 15)):
